@@ -901,7 +901,7 @@ impl Mon {
                         for p in d {
                             for fr in &p.frames {
                                 let (id, end) = match fr {
-                                    Frame::Stream { id, off, data, .. } => (*id, off + data.len() as u64),
+                                    Frame::Stream { id, off, data, .. } => (*id, off.saturating_add(data.len() as u64)),
                                     Frame::ResetStream { id, final_size, .. } => (*id, *final_size),
                                     _ => continue,
                                 };
@@ -912,7 +912,7 @@ impl Mon {
                                 }
                                 let hi = cm.sent_hi.entry(id).or_insert(0);
                                 if end > *hi {
-                                    cm.sent_total += end - *hi;
+                                    cm.sent_total = cm.sent_total.saturating_add(end - *hi);
                                     *hi = end;
                                 }
                                 if cm.sent_total > cm.led_max_data {
@@ -955,7 +955,7 @@ impl Mon {
                                 for ((pair, wc, sid), f) in _led.flows.iter() {
                                     if *pair == conn.pair && *wc != receiver_is_client {
                                         let c = if f.recv_stop.is_some() || f.reset.is_some() || f.recv_reset.is_some() { f.written.max(f.delivered.total()) } else { f.delivered.total() };
-                                        consumed += c;
+                                        consumed = consumed.saturating_add(c);
                                         parts.push((*sid, c, f.written));
                                     }
                                 }
